@@ -14,18 +14,18 @@ R = [
  ("identifiers::event_id::EventId::server_name", "str_index", None, "INV-ID", INV + "idx is the index of a ':' so idx+1 <= len on a char boundary"),
  ("identifiers::key_id::KeyId::<A, K>::algorithm", "str_index", None, "INV-ID", INV + "a ':' at index >= 1; the slice ends at the index returned by find(':')"),
  ("identifiers::key_id::KeyId::<A, K>::colon_idx", "unwrap", None, "INV-ID", INV + "that the id contains ':' (validate rejects MissingColon; from_parts writes one)"),
- ("identifiers::key_id::KeyId::<A, K>::key_name::{closure#0}", "panic", None, "INV-ID", INV + "K::validate accepted the part after the colon, which is what <&K>::try_from checks again"),
+ ("identifiers::key_id::KeyId::<A, K>::key_name::{closure}", "panic", None, "INV-ID", INV + "K::validate accepted the part after the colon, which is what <&K>::try_from checks again"),
  ("identifiers::key_id::KeyId::<A, K>::key_name", "str_index", None, "INV-ID", INV + "colon_idx()+1 <= len on a char boundary (':' is one byte)"),
  ("identifiers::key_id::KeyId::<A, K>::from_parts", "assert:overflow", None, "ARITH", "sum of two string lengths plus 1; each length <= isize::MAX"),
  ("identifiers::matrix_uri::MatrixId::to_string_with_type", "index", None, "INV-ID", INV + "a non-empty string starting with a 1-byte sigil, so as_bytes()[1..] is in range"),
  ("identifiers::matrix_uri::MatrixToUri::parse", "unwrap", None, "INFALLIBLE", "first next() of str::split always yields an element"),
- ("identifiers::mxc_uri::MxcUri::parts::{closure#0}", "str_index", None, "G2", "idx is the value just returned by mxc_uri::validate(self): 6 + index of the first '/' after the 6-byte ASCII prefix `mxc://`, checked to fit u8 without wrapping"),
+ ("identifiers::mxc_uri::MxcUri::parts::{closure}", "str_index", None, "G2", "idx is the value just returned by mxc_uri::validate(self): 6 + index of the first '/' after the 6-byte ASCII prefix `mxc://`, checked to fit u8 without wrapping"),
  ("identifiers::room_alias_id::RoomAliasId::alias", "str_index", None, "INV-ID", INV + "sigil '#' at 0 and a ':' at colon_idx() >= 1"),
  ("identifiers::room_alias_id::RoomAliasId::colon_idx", "unwrap", None, "INV-ID", INV + "that the alias contains ':'"),
  ("identifiers::room_alias_id::RoomAliasId::server_name", "str_index", None, "INV-ID", INV + "colon_idx()+1 <= len on a char boundary"),
  ("identifiers::room_or_alias_id::RoomOrAliasId::server_name", "str_index", None, "G2", "colon_idx comes from find(':') on the same string in the same function"),
  ("identifiers::server_name::ServerName::host", "str_index", None, "INV-ID", INV + "`[` ... `]` for IPv6 literals; bounds come from find(']') / find(':') / len on the same string"),
- ("identifiers::server_name::ServerName::port::{closure#3}", None, None, "INV-ID", INV + "that what follows the host is ':' followed by a u16 (server_name::validate parses it), so the byte exists, is ':', and the rest parses"),
+ ("identifiers::server_name::ServerName::port::{closure}", None, None, "INV-ID", INV + "that what follows the host is ':' followed by a u16 (server_name::validate parses it), so the byte exists, is ':', and the rest parses"),
  ("identifiers::session_id::SessionId::_priv_const_new", "panic", None, "CONTRACT", "private constructor behind the session_id! macro, which validates the literal at compile time"),
  ("identifiers::user_id::UserId::colon_idx", "unwrap", None, "INV-ID", INV + "that the user id contains ':'"),
  ("identifiers::user_id::UserId::localpart", "str_index", None, "INV-ID", INV + "sigil '@' at 0 and a ':' at colon_idx() >= 1"),
@@ -48,7 +48,7 @@ R = [
  ("http_headers::content_disposition::skip_ascii_whitespaces", None, None, "CURSOR", "*pos advances only while bytes.get(*pos) is Some"),
  # --- push
  ("push::condition::room_member_count_is::RoomMemberCountIs as core::str::traits::FromStr>::from_str", "str_index", None, "G2", "each slice start equals the byte length of the ASCII prefix that starts_with just matched in the match guard"),
- ("ruma_common::push::condition::StrExt>::char_at::{closure#0}", "panic", None, "INFALLIBLE", "char_str is exactly one char: [index, next char boundary)"),
+ ("ruma_common::push::condition::StrExt>::char_at::{closure}", "panic", None, "INFALLIBLE", "char_str is exactly one char: [index, next char boundary)"),
  ("ruma_common::push::condition::StrExt>::char_at", None, None, "CONTRACT", "private helper; callers pass a char boundary < len (find result, or `end` after the `end == len` test); char_len stops at the next boundary <= len"),
  ("ruma_common::push::condition::StrExt>::char_len", None, None, "CONTRACT", "is_char_boundary(len) is true, so the loop stops with index + len <= self.len()"),
  ("ruma_common::push::condition::StrExt>::find_prev_char", "assert:overflow", None, "GUARD", "index != 0 is tested first; is_char_boundary(0) is true so pos never goes below 0"),
@@ -82,7 +82,7 @@ R = [
  ("ruma_state_res::get_auth_chain_diff", "assert:overflow", None, "ARITH", "counter bounded by the number of auth chain sets"),
  ("ruma_state_res::separate::{closure", "assert:overflow", None, "ARITH", "counters bounded by the number of state sets"),
  ("ruma_state_res::lexicographical_topological_sort", "unwrap", None, "TREE", "reverse_graph and outdegree_map are built over every node and every edge of `graph` before the loop; heap entries are keys of graph"),
- ("ruma_state_res::mainline_sort::{closure#5}", "unwrap", None, "TREE", "order_map is filled for every id of sort_event_ids in the loop just before (errors propagate with ?)"),
+ ("ruma_state_res::mainline_sort::{closure}", "unwrap", None, "TREE", "order_map is filled for every id of sort_event_ids in the loop just before (errors propagate with ?)"),
  # --- html
  ("ruma_html::html::Html as core::fmt::Display>::fmt", "unwrap", None, "INFALLIBLE", "serializing into a Vec<u8> cannot fail; html5ever writes str data so the bytes are UTF-8"),
  ("markup5ever::interface::tree_builder::TreeSink>::add_attrs_if_missing", "unwrap", None, "CONTRACT", "html5ever TreeSink contract: called with element handles only"),
@@ -122,7 +122,7 @@ for fn, s, key in PC.inventory(w, CRATES):
     if PC.auto_discharge(w, fn, s, const_only):
         continue
     for sub, kind, det, cat, reason in R:
-        if sub in fn["path"] and (kind is None or s["kind"] == kind) and (det is None or det in s["detail"]):
+        if sub in PC.norm_path(fn["path"]) and (kind is None or s["kind"] == kind) and (det is None or det in s["detail"]):
             e = {"key": key, "cat": cat, "reason": reason, "where": f"{fn['span'][0]}"}
             if key in NE_LEN_GUARD:
                 e["requires"] = "ne-len-guard"      # re-verified on every run by panic_common.ne_len_guard
